@@ -231,7 +231,12 @@ package httpgen
 //@   modifies *
 //@   at-call P:config.mux.Handle( requires route_as_decided: line == "config.mux.Handle(\"" + g.getHTTPMethod(method) + " " + g.getMethodPath(method, g.getServiceBasePath(service), file.GoPackageName) + "\", " + annotations.LowerFirst(method.GoName) + "Handler)"
 //@   at-call "P:", config.errorHandler," requires middleware_verb_as_decided: line == "\"" + g.getHTTPMethod(method) + "\", config.errorHandler,"
+// the emitted Register function declares methodHeaders with the first route and assigns it afterwards: whichever methods get a
+// route, an assignment is never printed before the declaration (C13: the emitted file compiles)
+//@   at-call "P:methodHeaders = get" requires declared_before_assigned: count("P:methodHeaders := get") > old(count("P:methodHeaders := get"))
+//@   at-call "P:methodHeaders := get" requires declared_once: count("P:methodHeaders := get") == old(count("P:methodHeaders := get"))
 //@   loop 2 invariant count("P:config.mux.Handle(") == old(count("P:config.mux.Handle(")) + _i2
+//@   loop 2 invariant (_i2 == 0 ==> count("P:methodHeaders := get") == old(count("P:methodHeaders := get"))) && (_i2 > 0 ==> count("P:methodHeaders := get") == old(count("P:methodHeaders := get")) + 1)
 //@   ensures one_route_per_rpc: err == nil ==> count("P:config.mux.Handle(") == old(count("P:config.mux.Handle(")) + len(service.Methods)
 
 //@ func (g *Generator) generateFlattenFile(file *protogen.File) (err error)
